@@ -446,3 +446,111 @@ pub proof fn lemma_sound_sorted_keccak256(t: Tree, p: Seq<Seq<u8>>, x: Seq<u8>) 
         path.len() == p.len() && node_at(t, path).is_some() && hs::<Keccak256>(node_at(t, path).unwrap()) == x
             && proof_s::<Keccak256>(t, path) =~= p,
 { axiom_ideal_hash(); lemma_sound_sorted::<Keccak256>(t, p, x) }
+
+// ---- corollaries in the property's own words ----
+pub proof fn lemma_down_up(path: Seq<bool>)
+    ensures down_path(up_bits(path)) =~= path,
+    decreases path.len()
+{
+    if path.len() > 0 {
+        lemma_down_up(path.drop_first());
+        let u = up_bits(path);
+        assert(u.drop_last() =~= up_bits(path.drop_first()));
+        assert(u.last() == path[0]);
+    }
+}
+/// at the leaf's own index only the honest (leaf hash, proof) pair is accepted: a value that is not the
+/// node there, or any altered / reordered proof of the same length, is rejected
+pub proof fn lemma_indexed_only_honest<H: Hasher>(t: Tree, path: Seq<bool>, p2: Seq<Seq<u8>>, x2: Seq<u8>)
+    requires
+        ideal_pair_hash::<H>(), wf(t), leaves_sep::<H>(t), node_at(t, path).is_some(),
+        x2.len() == 32, all32(p2), p2.len() == path.len(),
+        fold_indexed::<H>(p2, x2, leaf_index(path)) == hi::<H>(t),
+    ensures
+        //@@ C17:lemma.indexed_only_honest
+        p2 =~= proof_i::<H>(t, path) && x2 == hi::<H>(node_at(t, path).unwrap()),
+{
+    lemma_up_bits_len(path);
+    lemma_index_of_bits(up_bits(path));
+    lemma_down_up(path);
+    lemma_sound_indexed::<H>(t, p2, x2, leaf_index(path));
+    assert(path_of_index(leaf_index(path), p2.len()) =~= path);
+}
+/// with a wrong index j (same depth) the honest pair of position `path` is rejected unless the node at
+/// position j has the same hash and the same proof, i.e. is itself a valid path for that value
+pub proof fn lemma_wrong_index<H: Hasher>(t: Tree, path: Seq<bool>, j: nat)
+    requires
+        ideal_pair_hash::<H>(), wf(t), leaves_sep::<H>(t), node_at(t, path).is_some(),
+        j < pow2(path.len()), j != leaf_index(path),
+        fold_indexed::<H>(proof_i::<H>(t, path), hi::<H>(node_at(t, path).unwrap()), j) == hi::<H>(t),
+    ensures
+        //@@ C17:lemma.wrong_index_only_if_other_valid_path
+        path_of_index(j, path.len()) != path
+            && node_at(t, path_of_index(j, path.len())).is_some()
+            && hi::<H>(node_at(t, path_of_index(j, path.len())).unwrap()) == hi::<H>(node_at(t, path).unwrap())
+            && proof_i::<H>(t, path_of_index(j, path.len())) =~= proof_i::<H>(t, path),
+{
+    lemma_complete_bits::<H>(t, path);
+    let n = node_at(t, path).unwrap();
+    lemma_node_at_wf::<H>(t, path);
+    lemma_hi_len::<H>(n);
+    lemma_proof_all32::<H>(t, path);
+    lemma_sound_indexed::<H>(t, proof_i::<H>(t, path), hi::<H>(n), j);
+}
+pub proof fn lemma_node_at_wf<H: Hasher>(t: Tree, path: Seq<bool>)
+    requires wf(t), node_at(t, path).is_some(),
+    ensures wf(node_at(t, path).unwrap()),
+    decreases path.len()
+{
+    if path.len() > 0 { lemma_node_at_wf::<H>(child(t, path[0]), path.drop_first()); }
+}
+pub proof fn lemma_proof_all32<H: Hasher>(t: Tree, path: Seq<bool>)
+    requires wf(t),
+    ensures all32(proof_i::<H>(t, path)), all32(proof_s::<H>(t, path)),
+    decreases path.len()
+{
+    if path.len() > 0 && is_node(t) {
+        lemma_proof_all32::<H>(child(t, path[0]), path.drop_first());
+        lemma_hi_len::<H>(child(t, !path[0]));
+    }
+}
+/// any other root is rejected (the fold is a function of proof, leaf and index)
+pub proof fn lemma_other_root<H: Hasher>(p: Seq<Seq<u8>>, x: Seq<u8>, i: nat, root: Seq<u8>, root2: Seq<u8>)
+    requires root2 != root,
+    ensures
+        //@@ C17:lemma.other_root_rejected
+        !(fold_indexed::<H>(p, x, i) == root && fold_indexed::<H>(p, x, i) == root2),
+        !(fold_sorted::<H>(p, x) == root && fold_sorted::<H>(p, x) == root2),
+{}
+/// the arguments `Verifier` really receives are sequences of 32-byte strings
+pub proof fn lemma_seq_bytes_all32(s: Seq<BytesN<32>>)
+    ensures all32(seq_bytes(s)),
+{
+    assert forall|j: int| 0 <= j < seq_bytes(s).len() implies (#[trigger] seq_bytes(s)[j]).len() == 32 by { s[j].lemma_len(); }
+}
+/// what a `true` from `Verifier::<Sha256>::verify_with_index(e, proof, root, leaf, index)` means when
+/// `root` is the root of tree t (read together with the contract `C17:verify_with_index.exact/.bounds`)
+pub proof fn lemma_verify_with_index_true_sha256(t: Tree, proof_: Seq<BytesN<32>>, leaf: BytesN<32>, index: u32)
+    requires wf(t), leaves_sep::<Sha256>(t), (index as int) < pow2(proof_.len()),
+        fold_indexed::<Sha256>(seq_bytes(proof_), leaf@, index as nat) == hi::<Sha256>(t),
+    ensures
+        //@@ C17:lemma.verify_with_index_true_means_member
+        node_at(t, path_of_index(index as nat, proof_.len())).is_some()
+            && hi::<Sha256>(node_at(t, path_of_index(index as nat, proof_.len())).unwrap()) == leaf@
+            && proof_i::<Sha256>(t, path_of_index(index as nat, proof_.len())) =~= seq_bytes(proof_),
+{
+    leaf.lemma_len();
+    lemma_seq_bytes_all32(proof_);
+    lemma_sound_indexed_sha256(t, seq_bytes(proof_), leaf@, index as nat);
+}
+pub proof fn lemma_verify_true_sha256(t: Tree, proof_: Seq<BytesN<32>>, leaf: BytesN<32>) -> (path: Seq<bool>)
+    requires wf(t), leaves_sep::<Sha256>(t), fold_sorted::<Sha256>(seq_bytes(proof_), leaf@) == hs::<Sha256>(t),
+    ensures
+        //@@ C17:lemma.verify_true_means_member
+        path.len() == proof_.len() && node_at(t, path).is_some() && hs::<Sha256>(node_at(t, path).unwrap()) == leaf@
+            && proof_s::<Sha256>(t, path) =~= seq_bytes(proof_),
+{
+    leaf.lemma_len();
+    lemma_seq_bytes_all32(proof_);
+    lemma_sound_sorted_sha256(t, seq_bytes(proof_), leaf@)
+}
